@@ -1,28 +1,42 @@
 """C09 — Standard-library functions meet their contracts.
 
-The contracts (filter/map/any/min/max/sorted/to_array results) are behavioural over tables and callbacks and are NOT
-decided. Claimed, as necessary structural conditions:
+The contracts quantify over tables and callbacks; what is decided are the clauses visible in the shape of the source:
 
+  C09.P  filter / map / any are *card programs* built by constructor calls in stdlib.rs. The trees are read back from the
+         HIR (cao/cardtree.py) and matched: one loop over the input binding (i, k, v); the callback is the second parameter
+         and gets the loop's variables, in one order for all three; filter stores result[k] = v exactly under the callback's
+         result; map stores result[k] = callback(..) for every row; any returns k under the callback's result and nil after
+         the loop; filter/map return a table created empty before the loop.
+  C09.K  min / max / sorted compare by value: the natives push the row's fields in one order at every callback site, the
+         compiler binds pushed values to parameters in a fixed direction, row_to_value returns the parameter that receives
+         the value, and the wrappers forward (input, row_to_value) to the parameters of the _by_key functions.
+  C09.A  to_array: t.iter().enumerate() and insert(index, value).
+  C09.U  non-table inputs are returned unchanged by every native.
   C09.T  wiring table: every "__name" used by a Card::call_native in stdlib.rs is registered by register_native_stdlib with
          a wrapper of the same arity as the number of argument cards; __min / __max are native_minmax::<_, true/false>
          and inside it LESS selects `<` on the true edge and `>` on the false edge; every library function is part of
          standard_library().
+  C09.F / C09.S  ties keep the first row; sorted is stable, ascending, by Value's own ordering on the unconverted keys.
   C09.N  inputs are not mutated: no native derives a mutable table reference from its `iterable` parameter.
+  C09.I  no iterator over the input is alive across a callback.
   C09.G  the natives' rooting hazards (callbacks that allocate) are the C02.R instances located in stdlib.rs.
 """
-from cao.facts import (AnchorMissing, callee_names, short, op_local, op_place, DefUse, hir_walk, hir_callee, hir_strip, hir_local_id)
+from cao.facts import (AnchorMissing, callee_names, short, op_local, op_place, DefUse, hir_walk, hir_callee, hir_strip, hir_local_id, pat_variants)
 from cao.rules import Rule, ok, bad, undecided, note, R
 from cao import mirutil as mu
 from cao import hirutil as hu
 
 EXPLANATION = (
-    "Only the wiring of the library is shape: C09.T joins three tables read from the resolved HIR — the native names "
-    "referenced by the library's card programs (string literals of Card::call_native with their argument counts), the "
-    "names registered in Vm::register_native_stdlib with the arity of the into_fK wrapper and the resolved function "
-    "(including the const generic of native_minmax), and the functions added to standard_library(). C09.N is a taint "
-    "rule: no &mut CaoLangTable / as_table_mut / get_table_mut / TryFrom<Value> for &mut CaoLangTable is applied to a "
-    "value derived from the `iterable` parameter of a native. C09.G re-reports the rooting hazards of C02.R that lie in "
-    "stdlib.rs. The functional contracts (which rows filter keeps, stability of sorted, ties in min/max) are NOT decided."
+    "The library is partly data: filter / map / any and the min / max / sorted wrappers are card trees assembled by "
+    "constructor calls. C09.P and C09.K read those trees back from the resolved HIR and match them against the shape the "
+    "contract needs (which variable is stored under which key, what is returned, under which condition), and join them "
+    "with two facts from elsewhere in the crate: the order in which the natives push a row's fields before every callback "
+    "(all sites must agree) and the direction in which the compiler binds pushed values to parameters. C09.A/U/F/S are HIR "
+    "pattern rules on the natives (iteration adapters, strict comparison as the only replacement condition, stable sort "
+    "by the language ordering, unchanged non-table arms). C09.T joins the wiring tables (native names used by cards, names "
+    "/ arity / const generic registered, functions exported). C09.N is a taint rule, C09.I a liveness rule, C09.G re-reports "
+    "the rooting hazards of C02.R that lie in stdlib.rs. Not decided: results on concrete tables - those follow from the card "
+    "semantics (C01) and the table semantics (C07)."
 )
 ASSUMPTIONS = ["C18.O (the wrappers pass arguments in declaration order)"]
 
@@ -257,8 +271,32 @@ def rule_s(F):
         if x["name"] in ("sort_by",):
             if not cmps:
                 probs.append("the comparator does not compare the keys")
+            # the fallback for incomparable keys: `unwrap_or(Equal)` makes NaN equal to every number while the numbers differ
+            # from each other - not a total order, the standard sort panics when it notices. The fallback has to tell the
+            # keys that compare with nothing apart (is_nan on both keys, compared as bools).
+            fallbacks = [y for y in hir_walk(clo["body"]) if y.get("k") == "mcall" and y["name"] in ("unwrap_or", "unwrap_or_else", "unwrap_or_default", "unwrap", "expect")]
+            fb_ok = False
+            for y in fallbacks:
+                if y["name"] == "unwrap_or_else" and y["args"]:
+                    inner = [z for z in hir_walk(y["args"][0]) if z.get("k") in ("mcall", "call") and (z.get("name") == "is_nan" or
+                             any(n.endswith("f64::is_nan") or n.endswith("::is_nan") for n in hir_callee(z)))]
+                    # is_nan may live in a local closure that the fallback calls
+                    local_fns = [z for z in hir_walk(y["args"][0]) if z.get("k") == "call" and hir_local_id(hu.strip_all(z["f"])) is not None]
+                    for lf in local_fns:
+                        lid = hir_local_id(hu.strip_all(lf["f"]))
+                        for init in hu.let_inits(f).get(lid, []):
+                            inner += [z for z in hir_walk(init) if z.get("k") == "mcall" and z.get("name") == "is_nan"]
+                    if inner:
+                        fb_ok = True
+            if fallbacks and not fb_ok:
+                probs.append("incomparable keys are all treated alike (%s): with a NaN key the comparator is not a total order (NaN equals "
+                             "every number, the numbers differ), and the standard sort panics when it detects that - the keys that compare "
+                             "with nothing have to be ordered apart (e.g. last)" % fallbacks[0]["name"])
             for y in cmps:
                 names = hir_callee(y)
+                if y.get("k") == "mcall" and (hu.strip_all(y["recv"]) or {}).get("ty") == "bool" and \
+                        any(any(w is y for w in hir_walk(fbk["args"][0])) for fbk in fallbacks if fbk["name"] == "unwrap_or_else" and fbk["args"]):
+                    continue   # the bool comparison inside the fallback
                 if not any(n == "<value::Value as std::cmp::PartialOrd>::partial_cmp" for n in names):
                     probs.append("keys are compared with %s instead of Value's own ordering (the one `<` uses): integers beyond 2^53, "
                                  "strings and tables are ordered differently from the comparison cards" % names[-1])
@@ -369,7 +407,405 @@ def rule_f(F):
     return res
 
 
+def rule_p(F):
+    """C09.P: the card programs of filter / map / any have the shape their contracts need (matched on the tree that
+    stdlib.rs builds, read back from the HIR - the card program is data in the source):
+      all   the loop runs over the function's first parameter with all of (i, k, v) bound; the callback is the second
+            parameter, called with the loop's own variables; the three functions pass them in the same order
+      filter  result table created empty before the loop, returned after it; inside the loop exactly one store
+              result[k] = v, executed only under the callback's result
+      map     exactly one store result[k] = callback(..), unconditional
+      any     under the callback's result the loop *returns the key*; after the loop the function returns nil"""
+    from cao import cardtree as ct
+    res = []
+    trees = {}
+    for name in ("filter", "map", "any"):
+        f = F.fn("stdlib::" + name)
+        t = ct.tree(F, f.hir["body"])
+        if not (isinstance(t, dict) and t.get("op") == "function" and len(t["params"]) == 2):
+            raise AnchorMissing("card program of stdlib::%s (got %s)" % (name, t.get("op") if isinstance(t, dict) else type(t)))
+        trees[name] = (f, t)
+    orders = {}
+    for name, (f, t) in trees.items():
+        p_iter, p_cb = t["params"]
+        loops = [x for x in t["cards"] if isinstance(x, dict) and x.get("op") == "ForEach"]
+        loc = f.loc()
+
+        def emit(clause, good, msg_ok, msg_bad):
+            key = "C09/P/%s/%s" % (name, clause)
+            res.append(ok("C09.P", key, loc, msg_ok) if good else bad("C09.P", key, loc, "std.%s: %s" % (name, msg_bad)))
+
+        if len(loops) != 1:
+            emit("one-loop-over-the-input", False, "", "the card program has %d for-each loops at top level" % len(loops))
+            continue
+        fe = loops[0]["args"][0]["named"]
+        li, lk, lv = fe.get("i"), fe.get("k"), fe.get("v")
+        emit("one-loop-over-the-input", ct.is_read(fe.get("iterable"), p_iter) and all(isinstance(x, str) for x in (li, lk, lv)),
+             "for-each over `%s` binding i=%s k=%s v=%s" % (p_iter, li, lk, lv),
+             "the loop does not run over the input parameter `%s` with index, key and value bound (iterable=%s, i=%s, k=%s, v=%s)"
+             % (p_iter, fe.get("iterable"), li, lk, lv))
+        body = fe.get("body")
+        calls = [x for x in ct.walk(body) if x.get("op") == "dynamic_call"]
+        good_cb = len(calls) == 1 and ct.is_read(calls[0]["named"].get("function"), p_cb)
+        args = calls[0]["named"].get("args") if calls else None
+        argn = [a["args"][0] if ct.is_read(a) else None for a in args] if isinstance(args, list) else []
+        emit("callback-gets-the-row", good_cb and sorted(x or "?" for x in argn) == sorted([li, lk, lv]),
+             "callback `%s` called once per row with (%s)" % (p_cb, ", ".join(map(str, argn))),
+             "the per-row call is not `%s(<index>, <value>, <key>)` of the loop's own variables (calls: %d, arguments: %s)" % (p_cb, len(calls), argn))
+        orders[name] = tuple({li: "i", lk: "k", lv: "v"}.get(a, "?") for a in argn)
+        stmts = body["args"][-1] if isinstance(body, dict) and body.get("op") == "composite_card" and isinstance(body["args"][-1], list) else [body]
+        stores = [x for x in ct.walk(body) if x.get("op") in ("set_property", "SetProperty", "AppendTable", "append_table")]
+        top_sets = [x for x in t["cards"] if isinstance(x, dict) and x.get("op") == "set_var"]
+        rets = [x for x in t["cards"] if isinstance(x, dict) and x.get("op") in ("return_card", "Return")]
+        if name in ("filter", "map"):
+            rvar = top_sets[0]["args"][0] if top_sets else None
+            created = bool(top_sets) and isinstance(top_sets[0]["named"].get("value"), dict) and top_sets[0]["named"]["value"].get("op") == "CreateTable" \
+                and t["cards"].index(top_sets[0]) < t["cards"].index(loops[0])
+            returned = bool(rets) and ct.is_read(rets[-1]["args"][0], rvar) and t["cards"].index(rets[-1]) > t["cards"].index(loops[0])
+            emit("result-is-a-fresh-table-returned-after-the-loop", created and returned,
+                 "`%s` = CreateTable before the loop, returned after it" % rvar,
+                 "the result is not a table created empty before the loop and returned after it (created=%s returned=%s)" % (created, returned))
+            one = len(stores) == 1 and stores[0].get("op") == "set_property"
+            st = stores[0]["named"] if one else {}
+            keyed = one and ct.is_read(st.get("table"), rvar) and ct.is_read(st.get("key"), lk)
+            if name == "filter":
+                val_ok = one and ct.is_read(st.get("value"), lv)
+                # the store is the then-branch of an IfTrue whose condition is the callback call
+                guarded = False
+                for x in ct.walk(body):
+                    if x.get("op") == "IfTrue" and isinstance(x["args"][0], list) and len(x["args"][0]) == 2:
+                        cond, then = x["args"][0]
+                        if ct.unwrap_composite(cond) is calls[0] if calls else False:
+                            guarded = one and any(y is stores[0] for y in ct.walk(then))
+                emit("keeps-the-row-under-its-own-key", keyed and val_ok,
+                     "result[%s] = %s" % (lk, lv),
+                     "the row is not stored as result[<key of the row>] = <value of the row> (store: %s)" % ({k_: (v_.get("args") if isinstance(v_, dict) else v_) for k_, v_ in st.items()}))
+                emit("keeps-the-row-only-if-the-callback-says-so", guarded,
+                     "the store is the then-branch of IfTrue(callback(..))",
+                     "the store is not executed exactly when the callback's result is truthy (it must be the then-branch of an IfTrue on the call)")
+            else:
+                v = ct.unwrap_composite(st.get("value")) if one else None
+                val_ok = one and calls and v is calls[0]
+                uncond = one and any(y is stores[0] for y in stmts)
+                emit("stores-the-callback-result-under-the-row-key", keyed and val_ok and uncond,
+                     "result[%s] = %s(..) for every row" % (lk, p_cb),
+                     "each row's callback result is not stored unconditionally as result[<key of the row>] (keyed=%s value-is-the-call=%s unconditional=%s)"
+                     % (keyed, bool(val_ok), uncond))
+        else:
+            hit = False
+            for x in ct.walk(body):
+                if x.get("op") == "IfTrue" and isinstance(x["args"][0], list) and len(x["args"][0]) == 2:
+                    cond, then = x["args"][0]
+                    then = ct.unwrap_composite(then)
+                    if calls and ct.unwrap_composite(cond) is calls[0] and isinstance(then, dict) and then.get("op") == "return_card" \
+                            and ct.is_read(then["args"][0], lk):
+                        hit = True
+            emit("returns-the-key-of-the-first-hit", hit and not stores,
+                 "IfTrue(callback(..)) -> return %s" % lk,
+                 "the first row whose callback is truthy does not end the loop by returning its key")
+            tail_nil = bool(rets) and t["cards"].index(rets[-1]) > t["cards"].index(loops[0]) and isinstance(rets[-1]["args"][0], dict) \
+                and rets[-1]["args"][0].get("op") == "ScalarNil"
+            emit("returns-nil-without-a-hit", tail_nil, "return nil after the loop", "the function does not return nil after a loop without a hit")
+    key = "C09/P/callback-argument-order-agrees"
+    if len(set(orders.values())) == 1 and "?" not in next(iter(orders.values()), ("?",)):
+        res.append(ok("C09.P", key, trees["filter"][0].loc(), "filter, map and any all call back with %s" % (next(iter(orders.values())),)))
+    else:
+        res.append(bad("C09.P", key, trees["filter"][0].loc(), "filter / map / any pass the row to the callback in different orders (%s): one callback cannot "
+                       "serve the three functions, and at least one of them disagrees with the documented (index, value, key)" % orders))
+    return res
+
+
+def rule_k(F):
+    """C09.K: min / max / sorted compare the rows *by value*. Three sites have to agree for that: the natives push the two
+    fields of a row in one fixed order before every callback (sibling agreement over all run_function sites), the compiler
+    binds pushed values to parameters in a fixed direction (process_function declares the parameters in reverse), and
+    `row_to_value` - the key function that min / max / sorted hand to the _by_key variants - returns the parameter that
+    receives the row's value under that convention."""
+    from cao import cardtree as ct
+    res = []
+    sites = []
+    for nat in ("stdlib::native_minmax", "stdlib::native_sorted"):
+        f = F.fn(nat)
+        du = DefUse(f)
+        cfg = f.cfg
+
+        def row_field(op, depth=0):
+            p = op_place(op)
+            seen = set()
+            while p is not None and depth < 12:
+                depth += 1
+                flds = [e["name"] for e in p["p"] if e["k"] == "field"]
+                if flds and flds[-1] in ("0", "1", "2"):
+                    return flds[-1]
+                if p["l"] in seen:
+                    return None
+                seen.add(p["l"])
+                d = du.sole_def(p["l"])
+                if d is None or d[2] != "assign":
+                    return None
+                rv = d[3]["rv"]
+                if rv["k"] in ("use", "cast"):
+                    p = op_place(rv["op"])
+                elif rv["k"] in ("ref", "rawptr"):
+                    p = rv["place"]
+                else:
+                    return None
+            return None
+        pushes = [(bi, t) for bi, t in mu.calls(f) if any(n.endswith("Vm::stack_push") for n in callee_names(t["func"]))]
+        for bi, t in mu.calls(f):
+            if not any(n.endswith("Vm::run_function") for n in callee_names(t["func"])):
+                continue
+            doms = [(pb, pt) for pb, pt in pushes if cfg.dominates(pb, bi) and pb != bi]
+            # nearest two: those not dominating another dominating push ... order by dominance depth
+            doms.sort(key=lambda x: len(cfg.dom[x[0]]))
+            last2 = doms[-2:]
+            fields = [row_field(pt["args"][1]) for _pb, pt in last2]
+            sites.append((f, t.get("ln"), fields))
+    if len(sites) < 3:
+        raise AnchorMissing("callback sites (run_function) in native_minmax / native_sorted (found %d)" % len(sites))
+    orders = set(tuple(x[2]) for x in sites)
+    key = "C09/K/natives/callbacks-get-the-row-in-one-order"
+    if len(orders) == 1 and None not in next(iter(orders)) and len(next(iter(orders))) == 2 and len(set(next(iter(orders)))) == 2:
+        res.append(ok("C09.K", key, sites[0][0].loc(sites[0][1]), "all %d callback sites push row fields %s (tuple positions of (key, value))" % (len(sites), next(iter(orders)))))
+    else:
+        f, ln, _ = sites[0]
+        res.append(bad("C09.K", key, f.loc(ln), "the natives push the row for the key function in different orders / not as its two fields at the "
+                       "%d callback sites (%s): one key function sees (key, value) at one site and (value, key) at another - the first row of "
+                       "min/max or the rows of sorted are compared by the wrong field" % (len(sites), [(x[0].name, x[2]) for x in sites])))
+        return res
+    pushed = next(iter(orders))          # e.g. ('1', '0'): value first, then key
+    pv = pushed.index("1")               # position of the value among the pushes (rows are (key, value) tuples)
+    pf = F.fn("compiler::Compiler::process_function")
+    reversed_binding = None
+    for x in hir_walk(pf.hir["body"]):
+        if x.get("k") == "loop":
+            for y in hir_walk(x):
+                if y.get("k") == "mcall" and y["name"] == "add_local":
+                    hdr = [z for z in hir_walk(pf.hir["body"]) if z.get("k") == "match" and any(w is x for w in hir_walk(z))]
+                    reversed_binding = any(z.get("k") == "mcall" and z["name"] == "rev" for h in hdr[-1:] for z in hir_walk(h.get("e") or h.get("scrut") or h))
+    if reversed_binding is None:
+        raise AnchorMissing("parameter declaration loop in process_function")
+    vk = F.fn("stdlib::value_key_fn")
+    t = ct.tree(F, vk.hir["body"])
+    key = "C09/K/row_to_value/returns-the-rows-value"
+    if not (isinstance(t, dict) and t.get("op") == "function" and len(t["params"]) == 2 and len(t["cards"]) == 1):
+        res.append(undecided("C09.K", key, vk.loc(), "row_to_value is not a two-parameter single-card function"))
+        return res
+    want = t["params"][(1 - pv) if reversed_binding else pv]
+    c = t["cards"][0]
+    got = c["args"][0]["args"][0] if isinstance(c, dict) and c.get("op") == "return_card" and ct.is_read(c["args"][0]) else None
+    if got == want:
+        res.append(ok("C09.K", key, vk.loc(), "value pushed at position %d, parameters bound %s: `%s` receives the value and is returned"
+                      % (pv, "in reverse" if reversed_binding else "in order", want)))
+    else:
+        res.append(bad("C09.K", key, vk.loc(), "row_to_value returns `%s`, but under the binding convention (parameters declared %s; the natives push "
+                       "the row fields in the order %s) the row's value arrives in `%s`: std.min / max / sorted order the rows by their keys"
+                       % (got, "in reverse" if reversed_binding else "in order", pushed, want)))
+    # the wrappers hand row_to_value and their own input on, in the order the _by_key functions declare them
+    for name, callee in (("min", "min_by_key"), ("max", "max_by_key"), ("sorted", "sorted_by_key")):
+        f = F.fn("stdlib::" + name)
+        helper = F.fn("stdlib::minmax") if name in ("min", "max") else f
+        t = ct.tree(F, helper.hir["body"])
+        tc = ct.tree(F, F.fn("stdlib::" + callee).hir["body"])
+        key = "C09/K/%s/forwards-input-and-row_to_value" % name
+        calls = [x for x in ct.walk(t) if x.get("op") == "call_function"] if isinstance(t, dict) else []
+        if len(calls) != 1 or not isinstance(tc, dict) or tc.get("op") != "function":
+            res.append(undecided("C09.K", key, f.loc(), "wrapper shape not recognised"))
+            continue
+        args = calls[0]["named"].get("args")
+        kinds = []
+        for a in args if isinstance(args, list) else []:
+            if ct.is_read(a, t["params"][0]):
+                kinds.append("input")
+            elif isinstance(a, dict) and a.get("op") == "function_value" and str(a["args"][0]).rsplit(".", 1)[-1] == "row_to_value":
+                kinds.append("keyfn")
+            else:
+                kinds.append("?")
+        # callee parameters: which one is forwarded to the native as the key function (second native argument)
+        ncalls = [x for x in ct.walk(tc) if x.get("op") == "call_native"]
+        nargs = ncalls[0]["named"].get("args") if ncalls else None
+        roles = {}
+        if isinstance(nargs, list) and len(nargs) == 2 and all(ct.is_read(a) for a in nargs):
+            roles[nargs[0]["args"][0]] = "input"
+            roles[nargs[1]["args"][0]] = "keyfn"
+        # static call: arguments are pushed in list order, parameters bound as above
+        params = list(tc["params"])
+        expect = [roles.get(p_) for p_ in (reversed(params) if reversed_binding else params)]
+        if kinds == expect and "?" not in kinds and None not in expect:
+            res.append(ok("C09.K", key, f.loc(), "passes %s to %s%s" % (kinds, callee, tuple(params))))
+        else:
+            res.append(bad("C09.K", key, f.loc(), "std.%s passes %s to %s, whose parameters (bound %s) expect %s: the table arrives as the key "
+                           "function or the other way round" % (name, kinds, callee, "in reverse" if reversed_binding else "in order", expect)))
+    return res
+
+
+def rule_q(F):
+    """C09.Q: the library's card programs refer to other library functions by their full path `std.<name>`. Name resolution
+    (C08.O, documented order) tries a bare name in the root module of the user's program first, so a bare reference is
+    bound to whatever the user calls `row_to_value`, `min_by_key`, ... and the contract of std.min / max / sorted then
+    depends on the names the user picked."""
+    from cao import cardtree as ct
+    res = []
+    lib = F.fn("stdlib::standard_library")
+    exported = set()
+    for x in hir_walk(lib.hir["body"]):
+        if x.get("k") == "mcall" and x["name"] == "push":
+            for y in hir_walk(x["args"][0]):
+                if y.get("k") == "lit" and y["lit"]["k"] == "str":
+                    exported.add(y["lit"]["v"])
+    if len(exported) < 8:
+        raise AnchorMissing("names exported by standard_library() (found %d)" % len(exported))
+    n = 0
+    for f in F.fns:
+        if not f.hir or f.is_closure or not f.short.startswith("stdlib::") or f.short.startswith("stdlib::native_") or f.short.startswith("stdlib::tests"):
+            continue
+        # string arguments that flow into call_function / function_value, including through a helper's parameter
+        refs = []
+        for x in hir_walk(f.hir["body"]):
+            if x.get("k") == "call" and any(n_.endswith("Card::call_function") or n_.endswith("Card::function_value") for n_ in hir_callee(x)):
+                a0 = hu.strip_all(x["args"][0])
+                if a0 is not None and a0.get("k") == "lit" and a0["lit"]["k"] == "str":
+                    refs.append((a0["lit"]["v"], x))
+            if x.get("k") == "call" and any(n_.startswith("stdlib::") for n_ in hir_callee(x)):
+                g = F.fn(hir_callee(x)[0], required=False)
+                if g is not None and g.hir and any(any(n_.endswith("Card::call_function") for n_ in hir_callee(y)) and
+                                                   hir_local_id(hu.strip_all(y["args"][0])) is not None
+                                                   for y in hir_walk(g.hir["body"]) if y.get("k") == "call"):
+                    for a in x["args"]:
+                        a = hu.strip_all(a)
+                        if a is not None and a.get("k") == "lit" and a["lit"]["k"] == "str":
+                            refs.append((a["lit"]["v"], x))
+        for name, x in refs:
+            n += 1
+            key = "C09/Q/%s/refers-to-%s-by-full-path" % (f.short.rsplit("::", 1)[-1], name.rsplit(".", 1)[-1])
+            if name.startswith("std.") and name[4:] in exported:
+                res.append(ok("C09.Q", key, f.loc(x.get("ln")), "`%s`" % name))
+            elif name in exported or name.rsplit(".", 1)[-1] in exported:
+                res.append(bad("C09.Q", key, f.loc(x.get("ln")), "the library function %s refers to the library's `%s` as `%s`: a bare name is looked up "
+                               "in the root module of the user's program first, so a user function of that name replaces the helper and "
+                               "std.min / max / sorted no longer meet their contracts" % (f.short.rsplit("::", 1)[-1], name.rsplit(".", 1)[-1], name)))
+            else:
+                res.append(bad("C09.Q", key, f.loc(x.get("ln")), "the library function %s refers to `%s`, which standard_library() does not export"
+                               % (f.short.rsplit("::", 1)[-1], name)))
+    if n < 5:
+        raise AnchorMissing("references between library functions (found %d)" % n)
+    return res
+
+
+def rule_a(F):
+    """C09.A: to_array returns the values re-keyed 0..n-1 in order: the native walks the input's own iterator with nothing
+    but `enumerate` on it (no rev / skip / filter / step_by), and inserts enumerate's index (unchanged) as the key and the
+    row's value (second field of the row) as the value into the fresh table it returns."""
+    res = []
+    f = F.fn("stdlib::native_to_array")
+    key = "C09/A/native_to_array/values-rekeyed-by-position"
+    loops = [x for x in hir_walk(f.hir["body"]) if x.get("k") == "match" and x.get("source") == "ForLoopDesugar"
+             and any(y.get("k") == "loop" for y in hir_walk(x))]
+    loops = [x for x in loops if (x.get("e") or x.get("scrut") or {}).get("k") == "call"]
+    if len(loops) != 1:
+        raise AnchorMissing("the for loop of native_to_array (found %d)" % len(loops))
+    head = loops[0].get("e") or loops[0].get("scrut")
+    chain = []
+    e = hu.strip_all(head["args"][0])
+    while e is not None and e.get("k") == "mcall":
+        chain.append(e["name"])
+        e = hu.strip_all(e["recv"])
+    problems = []
+    if chain != ["enumerate", "iter"]:
+        problems.append("the rows are visited through %s instead of iter().enumerate()" % ".".join(reversed(chain)))
+    arm = None
+    for y in hir_walk(loops[0]):
+        if y.get("k") == "match" and y is not loops[0] and y.get("source") == "ForLoopDesugar":
+            for a in y["arms"]:
+                if a["pat"].get("k") in ("tuple_struct", "struct") and pat_bindings_(a["pat"]):
+                    arm = a
+    ins = [y for y in hir_walk(loops[0]) if y.get("k") == "mcall" and any(n.endswith("CaoLangTable::insert") for n in hir_callee(y))]
+    if arm is None or len(ins) != 1:
+        raise AnchorMissing("row pattern / insert call in native_to_array")
+    # the pattern is Some((i, (_, val)))
+    def tuple_elems(p):
+        while p is not None and p.get("k") in ("tuple_struct", "struct") and not p.get("k") == "tuple":
+            inner = p.get("pats") or [fl["pat"] for fl in p.get("fields", [])]
+            if len(inner) != 1:
+                return None
+            p = inner[0]
+        return p["pats"] if p is not None and p.get("k") == "tuple" else None
+    outer = tuple_elems(arm["pat"])
+    idx_id = val_id = None
+    if outer and len(outer) == 2 and outer[0].get("k") == "bind" and outer[1].get("k") == "tuple" and len(outer[1]["pats"]) == 2:
+        idx_id = outer[0]["id"]
+        vp = outer[1]["pats"][1]
+        val_id = vp["id"] if vp.get("k") == "bind" else None
+    a0 = hu.strip_all(ins[0]["args"][0])
+    a1 = hu.strip_all(ins[0]["args"][1])
+    if a0 is not None and a0.get("k") == "un" and a0.get("op") == "Deref":
+        a0 = hu.strip_all(a0["e"])
+    if a1 is not None and a1.get("k") == "un" and a1.get("op") == "Deref":
+        a1 = hu.strip_all(a1["e"])
+    if idx_id is None or hir_local_id(a0) != idx_id:
+        problems.append("the key of the inserted row is not enumerate's index as it is")
+    if val_id is None or hir_local_id(a1) != val_id:
+        problems.append("the inserted value is not the row's value (second field of the row)")
+    if problems:
+        res.append(bad("C09.A", key, f.loc(ins[0].get("ln")), "std.to_array: %s - the result is not the input's values re-keyed 0..n-1 in order" % "; ".join(problems)))
+    else:
+        res.append(ok("C09.A", key, f.loc(ins[0].get("ln")), "for (i, (_, val)) in t.iter().enumerate() { out.insert(i, *val) }"))
+    return res
+
+
+def rule_u(F):
+    """C09.U: non-table inputs to the native-backed functions are returned unchanged: in every native every match arm other
+    than the Table arm evaluates to Ok(<the input parameter>)."""
+    res = []
+    n = 0
+    for nat in ("native_minmax", "native_sorted", "native_to_array"):
+        f = F.fn("stdlib::" + nat)
+        params = f.hir.get("params", [])
+        it = next((p_ for p_ in params if p_.get("k") == "bind" and p_.get("name") == "iterable"), None) or (params[1] if len(params) > 1 else None)
+        if it is None:
+            raise AnchorMissing("input parameter of %s" % nat)
+        offenders = []
+        arms = 0
+        for m in hir_walk(f.hir["body"]):
+            if m.get("k") != "match" or m.get("source") not in (None, "Normal"):
+                continue
+            vs = [[v[0].rsplit("::", 1)[-1] for v in pat_variants(a["pat"])] for a in m["arms"]]
+            flat = [x for v in vs for x in v]
+            if not ("Table" in flat or "Object" in flat) or not (set(flat) & {"Nil", "Integer", "Real", "String", "Function", "Closure", "Upvalue", "NativeFunction"}):
+                continue
+            for a, v in zip(m["arms"], vs):
+                if "Table" in v or "Object" in v:
+                    continue
+                arms += 1
+                b = hu.strip_all(a["body"])
+                good = b is not None and b.get("k") == "call" and any(n_.endswith("::Ok") for n_ in hir_callee(b)) and \
+                    hir_local_id(hu.strip_all(b["args"][0])) == it["id"]
+                if not good:
+                    offenders.append((a, v))
+        key = "C09/U/%s/other-kinds-returned-unchanged" % nat
+        n += 1
+        if arms < 2:
+            raise AnchorMissing("non-table arms in %s (found %d)" % (nat, arms))
+        if offenders:
+            a, v = offenders[0]
+            res.append(bad("C09.U", key, f.loc(a.get("ln")), "%s does not return its input unchanged for %s: non-table inputs to the "
+                           "native-backed library functions must come back as they are" % (nat, "/".join(v))))
+        else:
+            res.append(ok("C09.U", key, f.loc(), "%d non-table arms, all Ok(iterable)" % arms))
+    return res
+
+
+def pat_bindings_(p):
+    from cao.facts import pat_bindings
+    return pat_bindings(p)
+
+
 RULES = [
+    Rule("C09.Q", rule_q, 5, "library functions refer to each other by full path"),
+    Rule("C09.U", rule_u, 3, "non-table inputs are returned unchanged by the natives"),
+    Rule("C09.A", rule_a, 1, "to_array re-keys the values by their position"),
+    Rule("C09.K", rule_k, 5, "min / max / sorted order rows by value: push order, binding convention and row_to_value agree"),
+    Rule("C09.P", rule_p, 12, "the card programs of filter / map / any have the shape their contracts need"),
     Rule("C09.T", rule_t, 16, "native names, arities, polarity and exports are wired consistently"),
     Rule("C09.N", rule_n, 3, "natives do not mutate their input table"),
     Rule("C09.I", rule_i, 2, "no iterator over the input table is alive across a callback"),
